@@ -510,6 +510,33 @@ def m_vec_extend(ctx):
     return [ctx.ret_fresh()]
 
 
+def m_vec_clear(ctx):
+    eng, st = ctx.eng, ctx.st
+    v = ctx.args[0]
+    if v[0] == "ptr":
+        st.env[v[1] + ("#len",)] = V_int(Lin.const(0))
+    return [ctx.ret_fresh()]
+
+
+def m_vec_truncate(ctx):
+    eng, st = ctx.eng, ctx.st
+    v = ctx.args[0]
+    n = eng.as_lin(st, ctx.args[1])
+    if v[0] == "ptr":
+        L = eng.len_field(st, v[1])
+        f = Lin.sym(eng.new_sym("trunc", 0, ISIZE_MAX))
+        st.add(f - L)
+        if n is not None:
+            st.add(f - n)
+            # exact when the relation between len and n is known
+            if st.entails(n - L):
+                f = n
+            elif st.entails(L - n):
+                f = L
+        st.env[v[1] + ("#len",)] = V_int(f)
+    return [ctx.ret_fresh()]
+
+
 def m_vec_from_elem(ctx):
     eng = ctx.eng
     n = eng.as_lin(ctx.st, ctx.args[1])
@@ -918,6 +945,7 @@ EXACT = {
     "std::vec::Vec::<T>::with_capacity": m_with_capacity, "std::string::String::with_capacity": m_with_capacity,
     "std::vec::Vec::<T, A>::push": m_vec_push, "std::vec::Vec::<T, A>::extend_from_slice": m_vec_extend,
     "std::vec::from_elem": m_vec_from_elem,
+    "std::vec::Vec::<T, A>::clear": m_vec_clear, "std::vec::Vec::<T, A>::truncate": m_vec_truncate,
     "<std::vec::Vec<T, A> as std::clone::Clone>::clone": m_cow_to_vec_clone, "<std::borrow::Cow<'_, B> as std::clone::Clone>::clone": m_cow_to_vec_clone,
     "<std::vec::Vec<T, A> as std::ops::Deref>::deref": m_deref_len, "<std::vec::Vec<T, A> as std::ops::DerefMut>::deref_mut": m_deref_len,
     "<std::borrow::Cow<'_, B> as std::ops::Deref>::deref": m_deref_len, "<std::string::String as std::ops::Deref>::deref": m_deref_len,
